@@ -29,7 +29,17 @@ func genC17(r *Rng, k int, tier string) *RunSpec {
 	addr := func() []interface{} {
 		var out []interface{}
 		for i, n := 0, r.Intn(3); i < n; i++ {
-			out = append(out, Pick(r, pool))
+			id := Pick(r, pool)
+			if r.Intn(8) == 0 {
+				// the sender writes the addressed value out as an object of its own making: what counts is what THIS server
+				// stores under that id (its type, its members), not the sender's copy
+				mallory := "https://" + hostR + "/u/mallory"
+				cp := J{"type": Pick(r, []string{"Collection", "OrderedCollection"}), "id": id}
+				cp[itemsKey(cp)] = []string{mallory}
+				out = append(out, cp)
+				continue
+			}
+			out = append(out, id)
 		}
 		return out
 	}
@@ -48,7 +58,10 @@ func genC17(r *Rng, k int, tier string) *RunSpec {
 			return nil
 		}
 		if level == ownedAt {
-			switch r.Intn(5) {
+			switch r.Intn(6) {
+			case 5:
+				// an owned value that is not a collection and may well be addressed too (a local actor who is mentioned)
+				return Pick(r, []string{st.Alice.ID, st.Carol.ID, ownedNonColl})
 			case 0, 1:
 				return st.Note1
 			case 2:
